@@ -43,13 +43,25 @@ func vfC08Check(v *vfT, who, offerText, prevOfferText, answerText string) (fs []
 		}
 	}
 	byMid := map[string]*vfFamBOSec{}
+	ambiguous := map[string]bool{}
 	for _, a := range ans.Sections {
 		if a.Mid() != "" {
+			if byMid[a.Mid()] != nil {
+				ambiguous[a.Mid()] = true
+			}
 			byMid[a.Mid()] = a
 		}
 	}
+	offMids := map[string]int{}
+	for _, o := range off.Sections {
+		offMids[o.Mid()]++
+	}
 	for _, o := range off.Sections {
 		if o.Media != "audio" && o.Media != "video" {
+			continue
+		}
+		if ambiguous[o.Mid()] || offMids[o.Mid()] > 1 {
+			v.Label("section:ambiguous-mid(owned-by-C06)")
 			continue
 		}
 		if pd, ok := prev[o.Mid()]; ok && pd != "dir:"+o.Dir() {
